@@ -4,6 +4,54 @@ import json, os
 V = os.path.dirname(os.path.dirname(os.path.abspath(__file__)))
 
 CHECKS = {
+ "C01": dict(cat="exploration", ref="§3 C01",
+   technique="bounded-exhaustive enumeration of opening statements x CPU counts on the real prover/verifier + exhaustive schedule exploration (DPOR) of the grouping fan-in",
+   text="All index tuples over Z5^n (n<=3) x NumCPU {1,2,3,16,17}, all POLY^2 pairs, all representation pairs, all pointer-sharing partitions, a size sweep to 257 openings, the grouping seam for all (n,NumCPU) in [0,40]x[1,40] against a reference sum, and every arrival order of the worker fan-in (unbounded DPOR) are executed; each proof must verify on a fresh transcript with equal next challenge, a subset additionally against the reference verifier.",
+   note="Alphabets instead of all of Fr^256; NumCPU through the overlay seam; reference verifier trusted via pinned vectors."),
+ "C02": dict(cat="exploration", ref="§3 C02",
+   technique="exhaustive single-component perturbation menu over honest proofs, decision compared with an independent reference verifier on the same tuple",
+   text="For 8 (32 thorough) honest base proofs every perturbation of a fixed menu (each C_i, z_i, y_i, D, L_j, R_j, a, order, number, label, splices, re-representations, all shape errors) is fed to CheckMultiProof / CheckIPAProof and to the reference verifier; decisions must agree, representation-only changes must stay accepted, value changes must be rejected, shapes must error without panic.",
+   note="Agreement with the specification equation, not cryptographic soundness; valid group elements only."),
+ "C03": dict(cat="exploration", ref="§3 C03",
+   technique="proof bytes compared with an independent reference prover over an enumerated statement list x every configuration (NumCPU seam, real affinity/GOMAXPROCS child processes, representations, call history) + DPOR over MSM fan-in schedules + bounded enumeration of sync.Pool answers",
+   text="Serialized proofs and post-proof challenges equal the reference prover's for every enumerated statement (incl. n>=11 openings) and IPA point; identical under every enumerated configuration; one outcome over all schedules of the 2-/3-point MSM fan-in; unchanged under every pool answer (<=2 deviations) with poisoned pooled objects.",
+   note="Reference prover pinned by the two cross-implementation byte vectors; whole-proof schedule exploration only to the stated bounds."),
+ "C04": dict(cat="exploration", ref="§3 C04",
+   technique="bounded-exhaustive enumeration of (evaluation point, polynomial, claimed result) against coefficient-form evaluation by the reference",
+   text="15 evaluation points incl. 254,255,256,257,r-1 (all 0..300 thorough) x 14 polynomials x 8 claimed results: CheckIPAProof accepts exactly result = p(point) computed by interpolation + Horner; computeBVector compared with reference Lagrange coefficients across the 255/256 boundary.",
+   note="Alphabet of points/polynomials; rejection of wrong results is probabilistic (2^-250)."),
+ "C05": dict(cat="exploration", ref="§3 C05",
+   technique="exhaustive enumeration of every (point, window, digit, carry-in) of the precomputed MSM tables through the public Commit, against incrementally maintained reference multiples",
+   text="Thorough drives all 14.6 M (i,k,v,c) combinations; quick all 16-bit tables of two points, all 8-bit tables and boundary digits elsewhere; plus carry chains of every length from every window, edge scalars, vectors of many lengths, linearity and agreement with MultiScalar, and SRS = reference CRS.",
+   note="Per-scalar walks are independent, so single-coefficient vectors cover the table structure; multi-coefficient interaction is covered by the vector sweeps only."),
+ "C06": dict(cat="exploration", ref="§3 C06",
+   technique="bounded-exhaustive enumeration of byte strings (all x < 2^18 / 2^22, boundary bands around p and 2^256, aliases, all lengths) against a math/big reference predicate",
+   text="SetBytes, ReadPoint and SetBytesUncompressed(untrusted) accept exactly what the reference predicate accepts on every enumerated input; accepted inputs re-encode to themselves, have order dividing r (subset), and aliases x+p, x+2p are rejected.",
+   note="Inputs outside the enumerated ranges are represented by PRF members only."),
+ "C08": dict(cat="exploration", ref="§3 C08",
+   technique="full cross product of an element alphabet x 4 representations x aliasing patterns x edge-scalar alphabet against an independent math/big group law",
+   text="All pairs for Add/Sub/AddMixed in all aliasing patterns, all unary operations, ScalarMul for every (element, representation) x ~800 edge scalars (every 2^k, 2^k+-1, GLV edge values), and the distributive laws over S_small^2 x E; every result must be a valid curve point of the reference class.",
+   note="Element alphabet of 9 classes; the identity in all of its representations is included."),
+ "C14": dict(cat="model_checking", ref="§3 C14, §2.6",
+   technique="explicit-state exploration of all transcript operation sequences up to length 5/6 over a 20-operation menu, each replayed on the real Transcript and on the reference hash chain",
+   text="Every history (6.7 M quick) is executed on a fresh implementation transcript; every challenge must equal the reference's; distinct reference states are counted; long chains cover every pending size 0..5000 and 64 consecutive challenges.",
+   note="Binding is defined by the reference's absorbed byte stream (the transcript has no framing)."),
+ "C15": dict(cat="exploration", ref="§3 C15",
+   technique="full cross product of limb-boundary Montgomery representations through every field operation, in three build flavours (asm+ADX, noadx, portable), against math/big",
+   text="~540 (1400 thorough) boundary elements: all pairs x {Add,Sub,Mul,Cmp,Equal,Butterfly, generic variants, aliased receivers}, all unary operations, Tonelli-Shanks on all 32 two-power parts, BatchInvert on all short lists and zeros at every position; repeated in the noadx and portable binaries.",
+   note="ADX presence recorded; portable flavour produced by an overlay that removes the assembly."),
+ "C16": dict(cat="exploration", ref="§3 C16",
+   technique="bounded-exhaustive enumeration of byte strings of every length 0..64 x fill patterns x boundary values through every decoder, with capacity-level input-intact checks",
+   text="Reducing decoders equal the integer value mod r, the canonical decoder accepts exactly values < r, round trips hold over the edge-scalar alphabet, and no decoder modifies its input (checked up to capacity, and by decoding the same buffer twice).",
+   note="Found and fixed: in-place reversal in SetBytesLE/SetBytesLECanonical."),
+ "C17": dict(cat="exploration", ref="§3 C17",
+   technique="exhaustive enumeration of the quotient that drives the table-driven square root (all 2^32 dyadic exponents in thorough; complete per-block sweeps in quick) plus range sweeps of SqrtPrecomp/GetPointFromX against Jacobi-symbol oracles",
+   text="invSqrtEqDyadic is run on g^e for every e (thorough) / every 8-bit value of every block with the other blocks in {00,01,80,FF} and all 2^16 low exponents (quick); SqrtPrecomp on g^e*h and on [0,2^16/2^20); GetPointFromX on [0,2^16/2^18) x both flags.",
+   note="g^e assembled from math/big tables; pairwise block interactions are complete only in thorough."),
+ "C18": dict(cat="exploration", ref="§3 C18",
+   technique="all 256 division indices x unit vectors (linearity) and the polynomial alphabet against coefficient-form synthetic division; all 1022 table entries against defining products",
+   text="DivideOnDomain(k,f) equals the evaluation form of (p-p(k))/(X-k) at all 256 points incl. k for every k; barycentric coefficients equal reference Lagrange coefficients and reproduce p(z) by Horner; weight tables equal A'(i), 1/A'(i), 1/k, -1/k.",
+   note="Unit vectors reach every (i,k) coefficient only in thorough (all 256); quick uses a distance-covering subset."),
  "C20": dict(cat="model_checking", ref="§3 C20, §2.3, §2.4",
    technique="stateless model checking of parallel.Execute under a controlled scheduler (DPOR, unbounded, all (n,m) in [0,5]x[1,4]; deviation-bounded on larger cases) + exhaustive enumeration of the (n,m) rectangle on the real code",
    text="Every (n,m) in [0,300]x[1,64] (thorough [0,2048]x[1,300]) and the NumCPU-default form are executed on the real Execute and the multiset of ranges is checked; every interleaving of caller and workers for n<=5, m<=4 is explored without bound (DPOR; cross-checked against reduction-free search) with a yielding work function, so 'returns only after every invocation has returned' is decided for all schedules of these harnesses, not sampled.",
